@@ -474,13 +474,13 @@ def _div(ctx, x, y):
 
 def _floordiv(ctx, x, y):
     if z3.is_int(x) and z3.is_int(y):
-        return py_floordiv(x, y)
+        return py_floordiv(x, y, True)
     raise Undecided("floor division of real tensors")
 
 
 def _mod(ctx, x, y):
     if z3.is_int(x) and z3.is_int(y):
-        return py_mod(x, y)
+        return py_mod(x, y, True)
     raise Undecided("modulo of real tensors")
 
 
@@ -848,36 +848,27 @@ def flatten_dim(t, p):
 def slice_params(ctx, s, n):
     """python slice semantics on a dim of extent n (z3 Int): returns (start, count, step) z3 terms.
     torch rejects step <= 0 (ValueError), modelled as the function's own error path."""
-    def get(x):
-        if x is NONE:
-            return None
-        if isinstance(x, VAny):
-            x = x.force(None, ctx)
-            if x is NONE:
-                return None
-        if isinstance(x, VNum) and x.is_int:
-            return x.t
-        if isinstance(x, VTensor) and x.natoms() == 0:
-            return x.elem([])
-        raise PyRaise(VExc("TypeError", "slice indices must be integers or None"))
+    from .values import opt_int_term
+    step = opt_int_term(None, ctx, s.step, lambda: z3.IntVal(1))
+    if not ctx.branch(step > 0):
+        raise PyRaise(VExc("ValueError", "step must be greater than zero"))
 
-    start, stop, step = get(s.start), get(s.stop), get(s.step)
-    if step is None:
-        step = z3.IntVal(1)
-    else:
-        if not ctx.branch(step > 0):
-            raise PyRaise(VExc("ValueError", "step must be greater than zero"))
     def clampn(v):
         v = z3.If(v < 0, v + n, v)
         return z3.If(v < 0, 0, z3.If(v > n, n, v))
-    st = z3.IntVal(0) if start is None else clampn(start)
-    en = n if stop is None else clampn(stop)
+
+    st = opt_int_term(None, ctx, s.start, lambda: z3.IntVal(0), clampn)
+    en = opt_int_term(None, ctx, s.stop, lambda: n, clampn)
     sstep = z3.simplify(step)
     if z3.is_int_value(sstep) and sstep.as_long() == 1:
         cnt = z3.If(en > st, en - st, 0)
     else:
         cnt = z3.If(en > st, py_floordiv(en - st + step - 1, step), 0)
-    return z3.simplify(st), z3.simplify(cnt), step
+    # name the three quantities (definitional equalities in the path condition, memoised per term) so
+    # that downstream terms stay small
+    out = [ctx.define("sl_start", st), ctx.define("sl_count", cnt), ctx.define("sl_step", step)]
+    ctx.assume(z3.And(out[1] >= 0, out[0] >= 0, out[0] <= n))
+    return out[0], out[1], out[2]
 
 
 def index_tensor(t, it, ctx, idx):
@@ -1670,6 +1661,9 @@ def sym_tensor(name, extents, sort="real", is_linop=False, symmetric=False):
     def elem(idx):
         if not extents:
             return c
+        # canonical sum-of-monomials form of the index polynomials: equal index expressions become
+        # syntactically equal applications (congruence instead of nonlinear reasoning)
+        idx = [z3.simplify(i) for i in idx]
         if symmetric:
             p, q = idx[-2], idx[-1]
             return f(*(list(idx[:-2]) + [z3.If(p <= q, p, q), z3.If(p <= q, q, p)]))
